@@ -44,9 +44,9 @@ var verifC17Pool = []string{
 var verifC17Skip = map[string]bool{
 	"exit": true, "exec": true, "external": true, "has-external": true, "search-external": true, "cd": true,
 	"sleep": true, "time": true, "src": true, "-gc": true, "-stack": true, "-log": true, "-ifaddrs": true,
-	"benchmark": true, "tilde-abbr": true, "use-mod": true, "read-line": true, "read-upto": true, "read-bytes": true,
-	"from-lines": true, "from-json": true, "from-terminated": true, "slurp": true, "only-bytes": true, "only-values": true,
-	"get-env": true, "set-env": true, "unset-env": true, "has-env": true, "resolve": true, "deprecate": true, "-time": true,
+	"benchmark": true, "tilde-abbr": true, "use-mod": true,
+	"from-json": true,
+	"get-env":   true, "set-env": true, "unset-env": true, "has-env": true, "resolve": true, "deprecate": true, "-time": true,
 	"rand": true, "randint": true, "-randseed": true,
 	// unbounded output by design (range 1e20, repeat 1e20 x): the harness has no reader
 	"range": true, "repeat": true,
